@@ -944,7 +944,26 @@ func neverExpiresOnlyForNoLifetimeRule(r *Run, pkgs []string, floor int, consequ
 					if !ok || !isInt(st.Val.Type()) {
 						continue
 					}
-					if dependsOn(st.Val, func(v ssa.Value) bool { bo, isSum := v.(*ssa.BinOp); return isSum && bo.Op == token.ADD }) == nil || func() bool { _, isPhi := stripValue(st.Val).(*ssa.Phi); return isPhi }() {
+					if !func() bool {
+							// the stored value is the sum itself, possibly clamped and converted: uint32(min(sum, limit))
+							v := stripValue(st.Val)
+							for i := 0; i < 4; i++ {
+								switch x := v.(type) {
+								case *ssa.BinOp:
+									return x.Op == token.ADD
+								case *ssa.Convert:
+									v = stripValue(x.X)
+									continue
+								case *ssa.Call:
+									if bi, ok := x.Call.Value.(*ssa.Builtin); ok && bi.Name() == "min" && len(x.Call.Args) > 0 {
+										v = stripValue(x.Call.Args[0])
+										continue
+									}
+								}
+								return false
+							}
+							return false
+						}() {
 						continue // a phi or a helper's answer: judged where it is computed (the phi / return forms above)
 					}
 					if dependsOn(st.Val, func(v ssa.Value) bool {
